@@ -476,6 +476,19 @@ def _replace_once(ctx, case, rho):
         after = got.get(src, 0.0) + got.get(tgt, 0.0)
         if not ctx.close(after, before, rel=REL, name='replace.sum.relerr'):
             problems.append('source+target count %r became %r' % (before, after))
+    # the result through ordinary Python protocols: the same formula with the same (known or unknown) density
+    import copy
+    import pickle
+    for how, clone in (('copy.copy', copy.copy), ('copy.deepcopy', copy.deepcopy),
+                       ('pickle round trip', lambda x: pickle.loads(pickle.dumps(x))), ('1*f', lambda x: 1 * x)):
+        ctx.evaluated(what='replace-clone')
+        h = clone(g)
+        same_density = (h.density is None and g.density is None) or \
+            (h.density is not None and g.density is not None and abs(h.density - g.density) <= REL * abs(g.density))
+        if not same_density or h.atoms != g.atoms:
+            problems.append('%s of the result of replace has density %r and atoms %r; the result itself has density %r and '
+                            'atoms %r' % (how, h.density, h.atoms, g.density, g.atoms))
+            break
     ctx.evaluated(what='replace-density')
     if rho is None:
         if g.density is not None:
